@@ -1115,6 +1115,7 @@ fn parse_host(m: &BTreeMap<String, String>) -> (Vec<Op>, PathBuf, Result<HostRun
 fn run_host(m: &BTreeMap<String, String>) -> String {
     let stride: usize = m.get("stride").and_then(|s| s.parse().ok()).unwrap_or(1);
     let cont = m.get("cont").map(String::as_str).unwrap_or("bound");
+    let near_w: i64 = m.get("near").and_then(|s| s.parse().ok()).unwrap_or(1);
     let (ops, root, run) = parse_host(m);
     let mut run = match run {
         Ok(r) => r,
@@ -1134,7 +1135,7 @@ fn run_host(m: &BTreeMap<String, String>) -> String {
     for k in 0..=seg.len() {
         let (s1, _) = bytes_res(&seg[..k]);
         pref.push(s1);
-        let near = ends.iter().any(|(e, _)| (*e as i64 - k as i64).abs() <= 1) || k <= 1;
+        let near = ends.iter().any(|(e, _)| (*e as i64 - k as i64).abs() <= near_w) || k <= 1;
         // bytes below rw_floor were laid out by a repair rewrite: prefixes of them are states of a kill
         // *during* that rewrite (mode=rewrite covers those), not of the acknowledged history
         if !(k % stride == 0 || near) || k < rw_floor {
